@@ -1,6 +1,7 @@
 import Swim.Util.Parse
 import Swim.Drv.C17
 import Swim.Drv.C10
+import Swim.Drv.Merge
 /-! Line-protocol driver: `<PROP> <kind> k=v ...` in, `<PROP> <id> <agree|DISAGREE> <ok|BAD:..> ...` out. -/
 open Swim.Parse
 
@@ -13,6 +14,7 @@ def dispatch (line : String) : String :=
     let body := match prop with
       | "C17" => Swim.Drv.C17.handle kind fs
       | "C10" => Swim.Drv.C10.handle kind fs
+      | "C01" | "C02" | "C07" | "C08" | "C18" => Swim.Drv.Merge.handle prop kind fs
       | _ => "PARSE prop"
     s!"{prop} {id} {body}"
   | _ => "? ? PARSE line"
